@@ -25,6 +25,8 @@ VARIANTS = {
     "port": ("-O2 -g -DNDEBUG " + GUARD + " " + PORT_FLAGS, {"RXV_REPLACE_NEW": "ON", "RXV_PORTABLE": "ON"}),
     # host-compiled a64 / rv64 emitters + emulators (C19, C20), plain and sanitised
     "xjit": ("-O2 -g -DNDEBUG " + GUARD, {"RXV_XJIT": "ON"}),
+    # line-coverage build (lib/coverage_report.py; not used by any registered check)
+    "cov": ("-O0 -g --coverage -DNDEBUG " + GUARD, {"RXV_REPLACE_NEW": "ON"}),
     "xjit_asan": ("-O1 -g -fno-omit-frame-pointer -fsanitize=address,undefined -fno-sanitize-recover=all -DNDEBUG " + GUARD, {"RXV_XJIT": "ON"}),
 }
 
